@@ -2,7 +2,7 @@
 from ..facts import AnchorMissing, callee_def, op_place, op_const, is_bare, feasible_states
 from ..util import (SUBR, RTRAIT, ends, site, fn_key, callee_method, require, has_call, has_field, find_dispatch,
                     closure_bodies_created_in, transitive_closures, deep_atoms, direct_field, direct_place,
-                    edge_is_true, edges_where, unreachable_without_edges)
+                    edge_is_true, edges_where, unreachable_without_edges, origin)
 from .. import drops
 from ..widths import norm as widths_norm
 from .. import widths
@@ -76,6 +76,9 @@ def check(ctx):
              "into_lines run them in that order before the text is taken")
     ctx.guard("C03-H", rule_h)
     ctx.guard("C03-I", rule_i)
+    ctx.rule("C03-J", "an image stands for its alt text and nothing else: the `img` arm of the DOM walk looks only at the `alt` and "
+             "`src` attributes, and the Img node's text is an attribute value")
+    ctx.guard("C03-J", rule_j)
     for rid, fn in (("C03-A", rule_a), ("C03-B", rule_b), ("C03-C", rule_c), ("C03-D", rule_d), ("C03-E", rule_e),
                     ("C03-G", rule_g)):
         ctx.guard(rid, fn)
@@ -408,6 +411,57 @@ def rule_b(ctx):
     if ctb:
         okc = any(st.get("rv", {}).get("variant") == "Nothing" for st in pdn.stmts(ctb[0]))
     ctx.check(okc, "C03-B", "comment→Nothing", pdn.span, pdn.id, "")
+
+
+def rule_j(ctx):
+    """An image contributes its alt text and nothing else (no alt: nothing): in the `img` arm the only attribute names looked
+    at are `alt` and `src`."""
+    F = ctx.facts
+    pdn = F.one("process_dom_node")
+    tests = []
+    for a in sorted(pdn.reachable()):
+        t = pdn.term(a)
+        if t["k"] != "switch":
+            continue
+        neg, src = pdn.switch_source(a)
+        if src[0] == "bin" and src[1]["bin"] == "Eq":
+            for side in ("a", "b"):
+                ats = pdn.atoms(src[1][side], through_calls=False)
+                ints = [x[1] for x in ats if x[0] == "int"]
+                other = pdn.atoms(src[1]["b" if side == "a" else "a"], through_calls=False)
+                if ints and any(x[0] == "field" and x[2] == "local" for x in other):
+                    for s2 in pdn.succ(a):
+                        truth, _ = edge_is_true(pdn, a, s2)
+                        if truth is True:
+                            tests.append((a, decode_atom(ints[0]), s2))
+    imgs = [(a, s2) for a, nm, s2 in tests if nm == "img"]
+    require(len(imgs) == 1, "the `img` element test of process_dom_node")
+    region = {x for x in pdn.reachable() if pdn.dominates(imgs[0][1], x)}
+    aggs = [(x, st) for x in sorted(region) for st in pdn.stmts(x)
+            if (st.get("rv") or {}).get("agg") == "adt" and (st.get("rv") or {}).get("variant") == "Img" and ends(st["rv"].get("adt"), "RenderNodeInfo")]
+    ctx.floor("C03-J", "Img node constructions in the img arm", len(aggs), 1)
+    # attribute names are compared as strings: `&attr.name.local == "alt"` (the literal is a promoted constant)
+    attr_names = set()
+    for bb, t in pdn.calls(lambda cd, t: callee_method(t) in ("eq", "ne")):
+        if bb not in region or len(t["args"]) < 2:
+            continue
+        for i in (0, 1):
+            if any(a[0] == "field" and a[2] == "local" for a in pdn.atoms(t["args"][i], through_calls=False)):
+                o = origin(pdn, t["args"][1 - i])
+                k = (o[1] or {}) if o and o[0] == "const" else {}
+                if "promoted" in k:
+                    attr_names |= {v.strip('"') for v in pdn.promoted_consts(k["promoted"]) if v.startswith('"')}
+                elif str(k.get("v", "")).startswith('"'):
+                    attr_names.add(k["v"].strip('"'))
+                else:
+                    attr_names.add("?")
+    names = sorted(attr_names | {nm or "?" for a, nm, s2 in tests if a in region})
+    ctx.check(names == ["alt", "src"], "C03-J", "img-arm:attributes={alt,src}", pdn.term(imgs[0][0])["span"], pdn.id,
+              "the img arm looks at the attributes %s: an image stands for its alt text only — text taken from another attribute "
+              "is invented, and a loop that stops early on it can lose the alt text" % names)
+    for x, st in aggs:
+        at = pdn.atoms(st["rv"]["ops"][1]) if len(st["rv"]["ops"]) > 1 else set()
+        ctx.check(any(a[0] == "field" and a[2] == "value" for a in at), "C03-J", "img-arm:text-is-an-attribute-value", st["span"], pdn.id, "")
 
 
 PAYLOAD_SINKS = {
